@@ -2389,15 +2389,35 @@ is_equal(const CPPDeclaration *other) const {
     return _u._typecast._op1 == ot->_u._typecast._op1;
 
   case T_unary_operation:
-    return *_u._op._op1 == *ot->_u._op._op1;
-
   case T_binary_operation:
-    return *_u._op._op1 == *ot->_u._op._op1 &&
-      *_u._op._op2 == *ot->_u._op._op2;
-
   case T_trinary_operation:
-    return *_u._op._op1 == *ot->_u._op._op1 &&
-      *_u._op._op2 == *ot->_u._op._op2;
+    {
+      // Two operations are the same only if they apply the same operator to
+      // the same operands: (4 + 2) is not (4 * 2).  An operand may be absent
+      // (a call without arguments).
+      if (_u._op._operator != ot->_u._op._operator) {
+        return false;
+      }
+      const CPPExpression *mine[3] = {_u._op._op1, nullptr, nullptr};
+      const CPPExpression *theirs[3] = {ot->_u._op._op1, nullptr, nullptr};
+      if (_type != T_unary_operation) {
+        mine[1] = _u._op._op2;
+        theirs[1] = ot->_u._op._op2;
+      }
+      if (_type == T_trinary_operation) {
+        mine[2] = _u._op._op3;
+        theirs[2] = ot->_u._op._op3;
+      }
+      for (int i = 0; i < 3; ++i) {
+        if ((mine[i] == nullptr) != (theirs[i] == nullptr)) {
+          return false;
+        }
+        if (mine[i] != nullptr && *mine[i] != *theirs[i]) {
+          return false;
+        }
+      }
+      return true;
+    }
 
   case T_literal:
     return *_u._literal._value == *ot->_u._literal._value &&
@@ -2415,7 +2435,8 @@ is_equal(const CPPDeclaration *other) const {
 
   case T_type_trait:
     return _u._type_trait._trait == ot->_u._type_trait._trait &&
-           _u._type_trait._type == ot->_u._type_trait._type;
+           _u._type_trait._type == ot->_u._type_trait._type &&
+           _u._type_trait._arg == ot->_u._type_trait._arg;
 
   case T_lambda:
     return _u._closure_type == ot->_u._closure_type;
@@ -2498,19 +2519,36 @@ is_less(const CPPDeclaration *other) const {
     return _u._typecast._op1 < ot->_u._typecast._op1;
 
   case T_trinary_operation:
-    if (*_u._op._op3 != *ot->_u._op._op3) {
-      return *_u._op._op3 < *ot->_u._op._op3;
-    }
-    // Fall through
-
   case T_binary_operation:
-    if (*_u._op._op2 != *ot->_u._op._op2) {
-      return *_u._op._op2 < *ot->_u._op._op2;
-    }
-    // Fall through
-
   case T_unary_operation:
-    return *_u._op._op1 < *ot->_u._op._op1;
+    {
+      // Order by operator first, then by the operands (see is_equal).
+      if (_u._op._operator != ot->_u._op._operator) {
+        return _u._op._operator < ot->_u._op._operator;
+      }
+      const CPPExpression *mine[3] = {nullptr, nullptr, _u._op._op1};
+      const CPPExpression *theirs[3] = {nullptr, nullptr, ot->_u._op._op1};
+      if (_type != T_unary_operation) {
+        mine[1] = _u._op._op2;
+        theirs[1] = ot->_u._op._op2;
+      }
+      if (_type == T_trinary_operation) {
+        mine[0] = _u._op._op3;
+        theirs[0] = ot->_u._op._op3;
+      }
+      for (int i = 0; i < 3; ++i) {
+        if (mine[i] == nullptr || theirs[i] == nullptr) {
+          if (mine[i] != theirs[i]) {
+            return mine[i] == nullptr;
+          }
+          continue;
+        }
+        if (*mine[i] != *theirs[i]) {
+          return *mine[i] < *theirs[i];
+        }
+      }
+      return false;
+    }
 
   case T_literal:
     if (_u._literal._operator != ot->_u._literal._operator) {
@@ -2534,7 +2572,13 @@ is_less(const CPPDeclaration *other) const {
     if (_u._type_trait._trait != ot->_u._type_trait._trait) {
       return _u._type_trait._trait < ot->_u._type_trait._trait;
     }
-    return *_u._type_trait._type < *ot->_u._type_trait._type;
+    if (_u._type_trait._type != ot->_u._type_trait._type) {
+      return *_u._type_trait._type < *ot->_u._type_trait._type;
+    }
+    if (_u._type_trait._arg == nullptr || ot->_u._type_trait._arg == nullptr) {
+      return _u._type_trait._arg == nullptr && ot->_u._type_trait._arg != nullptr;
+    }
+    return *_u._type_trait._arg < *ot->_u._type_trait._arg;
 
   case T_lambda:
     return _u._closure_type < ot->_u._closure_type;
